@@ -387,11 +387,23 @@ def check_case(case):
         if op.split(":")[0] in ("gen", "smooth", "cover", "scorer", "score_chunk", "select"):
             shared = {}
             seq = []
-            for sd in (case["seed"], case["seed"] + 1, case["seed"]):
+            # ... and on ANOTHER screen in between (a different layout with other plate sizes)
+            other_case = dict(case, screen=_big_fixed() if case["screen"] != _big_fixed() else _pairwise_fixed())
+            try:
                 with np.errstate(all="ignore"):
-                    seq.append(json.dumps(run_op(case, sd, cache=shared), sort_keys=True, default=str))
+                    fresh_other = json.dumps(run_op(other_case, case["seed"]), sort_keys=True, default=str)
+            except Exception:
+                fresh_other = None
+            for sd, cs in ((case["seed"], case), (case["seed"] + 1, case), (case["seed"], other_case), (case["seed"], case)):
+                try:
+                    with np.errstate(all="ignore"):
+                        seq.append(json.dumps(run_op(cs, sd, cache=shared), sort_keys=True, default=str))
+                except Exception:
+                    seq.append(None)
             fresh = json.dumps(outs[0][1], sort_keys=True, default=str)
-            require(seq[0] == fresh and seq[2] == fresh, op + ".depends_on_call_history", lambda: "%s: on a reused %s object the result for seed %d is %s the first time and %s after a call with another seed; a fresh object gives %s" % (op, op.split(":")[0], case["seed"], seq[0][:160], seq[2][:160], fresh[:160]))
+            require(seq[0] == fresh and seq[3] == fresh, op + ".depends_on_call_history", lambda: "%s: on a reused %s object the result for seed %d is %s the first time and %s after calls with another seed / another screen; a fresh object gives %s" % (op, op.split(":")[0], case["seed"], str(seq[0])[:160], str(seq[3])[:160], fresh[:160]))
+            # (the force-include generator is configured with plate names of one particular screen: no cross-screen comparison)
+            require(op == "gen:PlatePermutationForce" or seq[2] == fresh_other, op + ".depends_on_call_history", lambda: "%s: a %s object that was used on one screen before gives %s on another screen; a fresh object gives %s" % (op, op.split(":")[0], str(seq[2])[:200], str(fresh_other)[:200]))
         # third run, other seed: did the operation consume randomness at all?
         _ambient(case["ambient"][0], case["ambient_draws"][0])
         try:
